@@ -40,6 +40,14 @@ def _fire(prop, kind, what, extra=None):
         _STATE["firings"].append(d)
 
 
+def _is_test_class(cls):
+    """Classes the tests define themselves (module 'node_test',
+    'psyclone.tests....'): not PSyclone's behaviour."""
+    mod = getattr(cls, "__module__", "") or ""
+    return (not mod.startswith("psyclone.") or ".tests." in mod
+            or mod.endswith("_test"))
+
+
 # ------------------------------------------------------------------ C14
 def _local_ok(clist):
     node = clist._node_reference
@@ -65,8 +73,8 @@ def _wrap_children(cls):
         def make(orig, name):
             @functools.wraps(orig)
             def wrapper(self, *a, **k):
-                if _STATE["depth"] > 0 or ".tests." in type(
-                        self._node_reference).__module__:
+                if _STATE["depth"] > 0 or _is_test_class(type(
+                        self._node_reference)):
                     # nodes of classes defined by the tests themselves
                     # (test doubles that raise from update hooks) are not
                     # PSyclone's behaviour
